@@ -249,6 +249,22 @@ func predicates(client *resolve.LocalClient, g *resolve.Graph, st *modelStats) (
 			}
 		}
 	}
+	keyOf := func(e resolve.Edge) artKey {
+		k := artKey{name: g.Nodes[e.To].Version.Name}
+		k.classifier, _ = e.Type.GetAttr(dep.MavenClassifier)
+		if t, ok := e.Type.GetAttr(dep.MavenArtifactType); ok && t != "jar" {
+			k.typ = t
+		}
+		return k
+	}
+	nodeKeys := map[resolve.NodeID]map[artKey]bool{}
+	for _, e := range g.Edges {
+		if nodeKeys[e.To] == nil {
+			nodeKeys[e.To] = map[artKey]bool{}
+		}
+		nodeKeys[e.To][keyOf(e)] = true
+	}
+	firstNode := map[artKey]resolve.NodeID{}
 	// 1. one version per artifact key
 	ver := map[artKey]string{}
 	in := map[resolve.NodeID][]resolve.Edge{}
@@ -266,7 +282,14 @@ func predicates(client *resolve.LocalClient, g *resolve.Graph, st *modelStats) (
 			return fmt.Sprintf("transitive edge %s -[%s]-> %s@%s: the root manages this artifact to %s", g.Nodes[e.From].Version.Name, e.Requirement, to.Name, to.Version, mv), "the root's dependencyManagement overrides versions of transitive declarations", nil
 		}
 		if prev, ok := ver[k]; ok && prev != to.Version {
-			return fmt.Sprintf("artifact %v appears with versions %s and %s", k, prev, to.Version), "at most one version per artifact", nil
+			note := ""
+			if len(nodeKeys[e.To]) > 1 || len(nodeKeys[firstNode[k]]) > 1 {
+				note = " " + sharedNodeNote
+			}
+			return fmt.Sprintf("artifact %v appears with versions %s and %s%s", k, prev, to.Version, note), "at most one version per artifact", nil
+		}
+		if _, ok := firstNode[k]; !ok {
+			firstNode[k] = e.To
 		}
 		ver[k] = to.Version
 		in[e.To] = append(in[e.To], e)
@@ -387,7 +410,19 @@ func validate(u gen.Universe, root [2]string) (obs, exp string, st modelStats, s
 	return o, e2, st, "ok", nil
 }
 
-func knownClass(obs string) string { return "" }
+// SharedNodeKeepsSupersededVersion: an artifact is declared under two keys
+// (say test-jar and jar) that resolve to the same version node; a soft
+// declaration of one key reuses that node; a range met later selects another
+// version for that key, but the edge that reused the node is not revisited, so
+// the key ends up with two versions. The predicate marks such observations.
+func knownClass(u gen.Universe, obs string) string {
+	if strings.Contains(obs, "appears with versions") && strings.Contains(obs, sharedNodeNote) && kf.Open("C07", "SharedNodeKeepsSupersededVersion") {
+		return "SharedNodeKeepsSupersededVersion"
+	}
+	return ""
+}
+
+const sharedNodeNote = "(one of the two nodes is also reached under another type or classifier of the artifact)"
 
 func prop(noRanges bool) func(*rapid.T) {
 	return func(t *rapid.T) {
@@ -438,7 +473,7 @@ func prop(noRanges bool) func(*rapid.T) {
 				}
 			}
 			if obs != "" {
-				if cl := knownClass(obs); cl != "" {
+				if cl := knownClass(u, obs); cl != "" {
 					rec.ExcludedKnown(cl)
 					continue
 				}
@@ -479,7 +514,7 @@ func TestReplay(t *testing.T) {
 	if err != nil {
 		t.Fatal(err)
 	}
-	if obs != "" && knownClass(obs) == "" {
+	if obs != "" && knownClass(c.Universe, obs) == "" {
 		t.Fatalf("replay fails: %s (expected %s)", obs, exp)
 	}
 }
